@@ -1,33 +1,64 @@
-"""Shared by C17/C18: running the record-batch model on generated cases."""
+"""Shared by C17/C18: running the record-batch model on generated cases (sharded over parallel coqc
+processes: one big file used to dominate the wall time of both checks)."""
+import subprocess
+
 from .. import common
 from .. import records_corr as rc
 from ..values import coq_bytes
 
 
+def _shards(terms, max_chars=600_000, max_items=150):
+    """consecutive chunks of the terms, bounded in text size and item count; yields (start, chunk)"""
+    start, cur, size = 0, [], 0
+    for i, t in enumerate(terms):
+        if cur and (size + len(t) > max_chars or len(cur) >= max_items):
+            yield start, cur
+            start, cur, size = i, [], 0
+        cur.append(t)
+        size += len(t)
+    if cur:
+        yield start, cur
+
+
 def run_coq(ctx, name, wcases=(), rcases=(), pcases=()):
-    """wcases: (new_batch, impl write result); rcases: (bytes, impl read result); pcases: (batch, impl write)."""
-    txt = rc.HEADER
-    parts = []
+    """wcases: (new_batch, impl write result); rcases: (bytes, impl read result); pcases: (batch, impl write).
+    Returns ({"w": failing indices, "r": ..., "p": ...}, error text)."""
+    d = ctx["build"]
+    groups = []
     if wcases:
-        txt += "Definition wcases : list wcase := [\n" + ";\n".join(
-            f"{{| w_nb := {rc.coq_new_batch(nb)}; w_out := {rc.coq_res(out, lambda o: coq_bytes(o[1]))} |}}"
-            for nb, out in wcases) + "].\nEval vm_compute in failing check_wcase wcases.\n"
-        parts.append("w")
+        groups.append(("w", "wcase", "check_wcase", [
+            f"{{| w_nb := {rc.coq_new_batch(nb)}; w_out := {rc.coq_res(out, lambda o: coq_bytes(o[1]))} |}}" for nb, out in wcases]))
     if rcases:
-        txt += "Definition rcases : list rcase := [\n" + ";\n".join(
-            f"{{| rd_in := {coq_bytes(d)}; rd_out := {rc.coq_res(out, lambda o: '(' + rc.coq_batch(o[1]) + ', ' + coq_bytes(o[2]) + ')')} |}}"
-            for d, out in rcases) + "].\nEval vm_compute in failing check_rcase rcases.\n"
-        parts.append("r")
+        groups.append(("r", "rcase", "check_rcase", [
+            f"{{| rd_in := {coq_bytes(b)}; rd_out := {rc.coq_res(out, lambda o: '(' + rc.coq_batch(o[1]) + ', ' + coq_bytes(o[2]) + ')')} |}}"
+            for b, out in rcases]))
     if pcases:
-        txt += "Definition pcases : list pcase := [\n" + ";\n".join(
-            f"{{| p_b := {rc.coq_batch(b)}; p_out := {rc.coq_res(out, lambda o: coq_bytes(o[1]))} |}}"
-            for b, out in pcases) + "].\nEval vm_compute in failing check_pcase pcases.\n"
-        parts.append("p")
-    rcode, out, dt = common.run_generated(ctx["build"], name, txt, timeout=1500)
-    if rcode != 0:
-        return None, out[-1500:]
-    chunks = out.split(": list nat")
-    res = {}
-    for tag, chunk in zip(parts, chunks):
-        res[tag] = common.parse_nat_list(chunk)
+        groups.append(("p", "pcase", "check_pcase", [
+            f"{{| p_b := {rc.coq_batch(b)}; p_out := {rc.coq_res(out, lambda o: coq_bytes(o[1]))} |}}" for b, out in pcases]))
+    files = []
+    for tag, ty, fn, terms in groups:
+        for n, (start, chunk) in enumerate(_shards(terms)):
+            fname = f"{name}{tag}_{n}"
+            (d / f"{fname}.v").write_text(rc.HEADER + f"Definition cases : list {ty} := [\n" + ";\n".join(chunk)
+                                          + f"].\nEval vm_compute in failing {fn} cases.\n")
+            files.append((fname, tag, start))
+    res = {tag: [] for tag, *_ in groups}
+    errors = []
+    running, pending = [], list(files)
+    while pending or running:
+        while pending and len(running) < 14:
+            fname, tag, start = pending.pop(0)
+            running.append((fname, tag, start, subprocess.Popen(
+                ["timeout", "1500", "coqc", *common.COQ_ARGS, "-Q", str(d), "KioG", f"{fname}.v"], cwd=d,
+                stdout=subprocess.PIPE, stderr=subprocess.STDOUT, text=True)))
+        fname, tag, start, p = running.pop(0)
+        rcode, out = common.coq_result(d, fname, p)
+        for ext in (".v", ".vo", ".vok", ".vos", ".glob"):
+            (d / f"{fname}{ext}").unlink(missing_ok=True)
+        if rcode != 0:
+            errors.append(f"{fname}: {out[-1200:]}")
+        else:
+            res[tag] += [start + i for i in common.parse_nat_list(out)]
+    if errors:
+        return None, "\n".join(errors[:3])
     return res, ""
